@@ -466,6 +466,12 @@ def callable_funcs(sc, ret, pure):
     return out
 
 
+def _ret_expr_t(draw, ret):
+    """Static type of a return expression for a function declared `-> ret`: an int expression is accepted where long is
+    declared and is widened by the return (docs: implicit int -> long)."""
+    return "int" if (ret == "long" and draw(st.booleans())) else ret
+
+
 def fresh_name(draw, sc, pool=None):
     pool = pool or NAME_POOL
     free = [n for n in pool if n not in sc.used]
@@ -591,7 +597,7 @@ def gen_stmt(draw, sc, depth, ret_t, in_loop, allow_echo):
                 for pt, _ in f["params"]]
         return {"k": "expr", "e": {"k": "call", "t": "void", "f": f["name"], "args": args}}
     if c == "earlyret":
-        return {"k": "if", "c": draw(gen_expr(sc, "boolean", 2)), "then": [{"k": "ret", "e": draw(gen_expr(sc, ret_t, 2))}],
+        return {"k": "if", "c": draw(gen_expr(sc, "boolean", 2)), "then": [{"k": "ret", "e": draw(gen_expr(sc, _ret_expr_t(draw, ret_t), 2))}],
                 "else": None}
     if c == "if":
         cond = draw(gen_expr(sc, draw(st.sampled_from(["boolean", "boolean", "bit"])), 2))
@@ -704,12 +710,12 @@ def gen_function(draw, funcs, name, kind):
         sc.vars.insert(0, {"name": n, "t": "int", "ro": True, "nonneg": False})
         ret = draw(st.sampled_from(["int", "long", "float", "string"]))
         me = {"name": name, "params": params, "ret": ret, "pure": True, "body": [], "rec": True}
-        base = draw(gen_expr(sc, ret, 2))
+        base = draw(gen_expr(sc, _ret_expr_t(draw, ret), 2))
         rec_args = [{"k": "bin", "t": "int", "op": "-", "l": {"k": "var", "t": "int", "name": n}, "r": lit("int", 1)}]
         for pt, pn in params[1:]:
             rec_args.append(draw(gen_expr(sc, pt, 1, False, False)))
         call = {"k": "call", "t": ret, "f": name, "args": rec_args}
-        other = draw(gen_expr(sc, ret if ret != "string" else "string", 1, False, True))
+        other = draw(gen_expr(sc, _ret_expr_t(draw, ret), 1, False, True))
         op = "+" if ret == "string" else draw(st.sampled_from(["+", "-", "+"]))
         comb = {"k": "bin", "t": ret, "op": op, "l": call, "r": other} if draw(st.booleans()) else \
             {"k": "bin", "t": ret, "op": op, "l": other, "r": call}
@@ -732,7 +738,7 @@ def gen_function(draw, funcs, name, kind):
             e = draw(gen_array_expr(sc, ret, 1, decl=True))
             body.append({"k": "decl", "t": ret, "name": nm, "init": e})
             sc.vars.append({"name": nm, "t": ret, "ro": False, "len": e.get("len")})
-        body.append({"k": "ret", "e": draw(gen_expr(sc, ret, 2))})
+        body.append({"k": "ret", "e": draw(gen_expr(sc, _ret_expr_t(draw, ret), 2))})
         return {"name": name, "params": params, "ret": ret, "body": body, "pure": True}
     body = draw(gen_block(sc, draw(st.integers(1, 5)), 2, "void", False, True))
     return {"name": name, "params": params, "ret": "void", "body": body, "pure": False}
